@@ -264,6 +264,13 @@ def gen_numbers(thorough):
                 if negzero and a != 0:
                     continue
                 yield ("B", (a, b), (a, b, (("I", "i", a, b, ((a, b, "x"),)), ("P", "p", a, b, ((a, "u"), (b, "v"))))), notation, negzero)
+        # span bounds that no entry touches (and that are falsy when they are 0): entries strictly inside, and empty tiers
+        for a, b in itertools.combinations(nums, 2):
+            m1, m2 = a + (b - a) / 4, a + (b - a) / 2
+            if not (a < m1 < m2 < b):
+                continue
+            yield ("B", (a, b, "strictly-inside"), (a, b, (("I", "i", a, b, ((m1, m2, "x"),)), ("P", "p", a, b, ((m1, "u"), (m2, "v"))))), notation, False)
+            yield ("B", (a, b, "empty"), (a, b, (("I", "i", a, b, ()), ("P", "p", a, b, ()))), notation, False)
         # legitimate intervals whose duration is tiny RELATIVE to their timestamps (one ulp at 0.3; 1e-6 .. 8e-3 s at 1.7e9 .. 1.1e12 s):
         # the reader returns exactly what the file encodes
         for a, b in TINY_REL:
